@@ -1145,23 +1145,28 @@ int main(int argc, char **argv) {
     cbor_init();
     date_init();
     v_out("INFO shipped base64 path vectorised (AVX2): %d; tier %s", (int)aws_common_private_has_avx2(), v_tier);
-    bee_register("xml_str", xml_str_total, xml_str_eval, 10);
-    bee_register("xml_edit", xml_edit_total, xml_edit_eval, 10);
-    bee_register("json_str", json_str_total, json_str_eval, 10);
-    bee_register("json_edit", json_edit_total, json_edit_eval, 10);
-    bee_register("cbor_str", cbor_str_total, cbor_str_eval, 10);
-    bee_register("cbor_edit", cbor_edit_total, cbor_edit_eval, 20);
-    bee_register("uri_str", uri_str_total, uri_str_eval, 10);
-    bee_register("uri_edit", uri_edit_total, uri_edit_eval, 10);
-    bee_register("date_str", date_str_total, date_str_eval, 10);
-    bee_register("date_edit", date_edit_total, date_edit_eval, 10);
-    bee_register("host_str", host_str_total, host_str_eval, 10);
-    bee_register("host_edit", host_edit_total, host_edit_eval, 10);
-    bee_register("u64_str", u64_str_total, u64_str_eval, 10);
-    bee_register("u64_edit", u64_edit_total, u64_edit_eval, 10);
-    bee_register("b64_str", b64_str_total, b64_str_eval, 10);
-    bee_register("b64_edit", b64_edit_total, b64_edit_eval, 10);
-    bee_register("hex_str", hex_str_total, hex_str_eval, 10);
-    bee_register("utf8_str", utf8_str_total, utf8_str_eval, 10);
+#define REG(name, tot, ev, to)                                                                                  \
+    do {                                                                                                         \
+        if (!only || strncmp(name, only, strlen(only)) == 0) bee_register(name, tot, ev, to);                    \
+    } while (0)
+    const char *only = getenv("C04_ONLY"); /* development aid: run only the sections with this name prefix */
+    REG("xml_str", xml_str_total, xml_str_eval, 10);
+    REG("xml_edit", xml_edit_total, xml_edit_eval, 10);
+    REG("json_str", json_str_total, json_str_eval, 10);
+    REG("json_edit", json_edit_total, json_edit_eval, 10);
+    REG("cbor_str", cbor_str_total, cbor_str_eval, 10);
+    REG("cbor_edit", cbor_edit_total, cbor_edit_eval, 20);
+    REG("uri_str", uri_str_total, uri_str_eval, 10);
+    REG("uri_edit", uri_edit_total, uri_edit_eval, 10);
+    REG("date_str", date_str_total, date_str_eval, 10);
+    REG("date_edit", date_edit_total, date_edit_eval, 10);
+    REG("host_str", host_str_total, host_str_eval, 10);
+    REG("host_edit", host_edit_total, host_edit_eval, 10);
+    REG("u64_str", u64_str_total, u64_str_eval, 10);
+    REG("u64_edit", u64_edit_total, u64_edit_eval, 10);
+    REG("b64_str", b64_str_total, b64_str_eval, 10);
+    REG("b64_edit", b64_edit_total, b64_edit_eval, 10);
+    REG("hex_str", hex_str_total, hex_str_eval, 10);
+    REG("utf8_str", utf8_str_total, utf8_str_eval, 10);
     return bee_main(argc, argv);
 }
